@@ -26,7 +26,7 @@ RULE = (
     "case = StatThresholdAnomaliser(wrapped in {PELT, MovingWindow, SeededBinarySegmentation (zoo "
     "configurations), ScriptedChangeDetector with arbitrary given changepoints incl. none, 1, n-1, "
     "consecutive}, stat in {mean, median, user range/first}, bounds lower<=upper incl. equal) on seeded "
-    "univariate data (Series or one-column DataFrame, 5 index types), n<=60 (150). Oracle: anomalies "
+    "univariate data (Series or one-column DataFrame, 5 index types + a monotonic DatetimeIndex with tied stamps), n<=60 (150). Oracle: anomalies "
     "== the segments [c_i, c_{i+1}) delimited by the changepoints of an INDEPENDENTLY built and "
     "fitted copy of the wrapped detector on the same data whose statistic is < lower or > upper, each "
     "its own interval; the user's wrapped detector stays unfitted with unchanged parameters (in 30% of "
@@ -60,7 +60,8 @@ def make_recipe(rng, tier):
         m = int(rng.integers(max(nmin, 2), max(nmin, 2) + 80))
         prefit = (gen_data(rng, m, 1, "mean_changes")[0] * float(rng.choice([0.2, 1.0, 30.0]))).tolist()
     return {"det": spec, "X": X, "container": "series" if rng.random() < 0.5 else "frame",
-            "index": INDEX_KINDS[int(rng.integers(5))], "data_kind": kind, "prefit": prefit}
+            "index": (INDEX_KINDS + ["datetime_ties"])[int(rng.integers(6))], "data_kind": kind,
+            "prefit": prefit}
 
 
 def _fitted_state(obj):
@@ -105,6 +106,12 @@ def exec_case(ctx, r):
             cp = [int(c) for c in twin.predict(data)["ilocs"].tolist()]
     except CaseTimeout:
         ctx.stat("case_timeouts")
+        return
+    except RuntimeError as ex:
+        if "GaussianCovCost" in short(spec) and "positive definite" in str(ex):
+            ctx.stat("documented_runtimeerror")
+            return
+        ctx.violation(sub, "exception", f"{label}: {type(ex).__name__}: {ex}", r)
         return
     except Exception as ex:
         ctx.violation(sub, "exception", f"{label}: {type(ex).__name__}: {ex}", r)
